@@ -177,7 +177,7 @@ def run(ctx):
     thorough = ctx.tier == "thorough"
     ctx.model_check("C08_MC", "C08_MC.cfg", "stiffness symmetric / zero row sums, G*AG = L, affine gradient, mass sums on lattice triangulations")
     shapes = []
-    for nu, nv_, sx, sy in [(3, 3, 1, 1), (3, 4, 3, 4), (4, 3, 2, 1), (2, 2, 1, 1)] + ([(5, 4, 1, 1), (4, 4, 3, 4)] if thorough else []):
+    for nu, nv_, sx, sy in [(3, 3, 1, 1), (3, 4, 3, 4), (4, 3, 2, 1), (2, 2, 1, 1)] + ([(5, 4, 1, 1), (4, 4, 3, 4), (6, 3, 1, 2), (4, 5, 5, 12), (3, 5, 2, 3)] if thorough else []):
         P, F = c09._grid_surface(nu, nv_, sx, sy, True)
         shapes.append(("P", P, F, [], []))
     cubeP = [[0, 0, 0], [2, 0, 0], [2, 2, 0], [0, 2, 0], [0, 0, 2], [2, 0, 2], [2, 2, 2], [0, 2, 2]]
@@ -203,7 +203,7 @@ def run(ctx):
         for nm, opt in ops:
             evs.append({"name": nm, "opt": opt, "wseed": rng.randrange(10 ** 6), "a": [rng.randint(-2, 2) for _ in range(3)]})
         # renumbered copy: the operators do not depend on numbering
-        for rep in range(3 if thorough else 2):
+        for rep in range(6 if thorough else 2):
             perm = list(range(len(P)))
             if rep:
                 rng.shuffle(perm)
